@@ -310,7 +310,9 @@ def thr (s : SFile) : Nat := match s.threshold with | some n => n | none => defa
 def idPart (id : Nat) : Nat := if id = 0 then 7 else (id - 1) % partN
 
 def modPart (s : SFile) (i : Nat) (f : Part → Part) : SFile :=
-  { s with parts := s.parts.zipIdx.map fun (p, j) => if j = i then f p else p }
+  match s.parts[i]? with
+  | some p => { s with parts := s.parts.set i (f p) }
+  | none => s
 
 def see (s : SFile) (ks : List (Bytes × Nat)) : SFile :=
   { s with seen := ks.foldl (fun acc k => if acc.any (·.1 == k.1) then acc else acc ++ [k]) s.seen }
